@@ -19,7 +19,11 @@ from common import nets, nets_g, batch_g
 ID = 'C19'
 N = {'quick': 260, 'thorough': 9000}
 LEAN_MODULES = ['GnpyProofs.Props.C19']
-THEOREMS = [f'Gnpy.Response.{t}' for t in ()]
+THEOREMS = [f'Gnpy.Response.{t}' for t in (
+    'one_response_per_request', 'pathResult_id', 'aggregation_spec', 'aggregation_exactly_once',
+    'blocked_nopath_shape', 'blocked_shape', 'hopObjs_no_labels', 'served_shape', 'hopObjs_transponder',
+    'bidir_has_both', 'metrics_are_receiver_values', 'csv_consistent', 'csv_pass_iff', 'csv_nopath_row',
+    'aggStep_inv', 'absorbInto_split')] + ['Gnpy.HE.abs_round2_sub_le']
 RULE = ('one PRNG; a case = a random mesh of 3-5 ROADM sites (direction-asymmetric spans) plus an unreachable island, a '
         'generated library (feasible, infeasible and wide-band transceivers, optional penalties and offsets) and a batch '
         'of 2-8 requests drawn from the kinds fixed / auto / hard (MODE_NOT_FEASIBLE) / autohard (NO_FEASIBLE_MODE) / narrow '
@@ -151,8 +155,13 @@ def run(case, drv):
     if impl_err or exp_err:
         res.nontrivial = True
         return res
-    impl = [batch_g.norm(r.json) for r in result]
-    resp_doc = batch_g.norm(results_to_json(result))
+    impl, json_errors = [], []
+    for r, rq in zip(result, rqs):
+        try:
+            impl.append(batch_g.norm(r.json))
+        except Exception as e:   # noqa: BLE001  the property demands a response for every request
+            impl.append({'error': err_kind(e)})
+            json_errors.append((rq.request_id, err_kind(e), getattr(rq, 'blocking_reason', None), rq.N, rq.M))
     # ---- correspondence: aggregation -----------------------------------------------------------------------------------------
     from gnpy.tools.json_io import requests_from_json
     from gnpy.topology.request import correct_json_route_list
@@ -176,14 +185,21 @@ def run(case, drv):
     ans = drv.ask('c19.results', results=args)
     any_ill = False
     for i, (a, j) in enumerate(zip(ans, impl)):
-        if 'error' in a:
-            res.mismatch('ResultElement.json', j, a['error'], index=i)
+        if 'error' in a or 'error' in j:
+            res.cmp_exact('ResultElement.json.error_kind', j.get('error'), a.get('error'), index=i)
             continue
         if b2f(a['tie']) < 1e-4:
             res.ill += 1
             any_ill = True
             continue
         res.cmp_exact('ResultElement.json', j, batch_g.dec(a['ok']), index=i)
+    if json_errors:
+        for rid, kind, reason, n_, m_ in json_errors:
+            res.fail(f'response missing: ResultElement.json raised {kind} for request {rid} (blocking reason {reason}, N={n_}, '
+                     f'M={m_}): every request must appear in the response')
+        res.stats['json_errors'] += len(json_errors)
+        return res
+    resp_doc = batch_g.norm(results_to_json(result))
     res.cmp_exact('results_to_json.length', len(resp_doc['response']), len(rqs))
     # ---- correspondence: CSV -------------------------------------------------------------------------------------------------
     out = io.StringIO()
@@ -210,6 +226,9 @@ def run(case, drv):
                 model['nb of tsp pairs'] = nb
                 model['total cost'] = nb * batch_g.dec(m['cost'])
             _cmp_row(res, i, row, model)
+    # ---- CSV of perturbed responses: jsontocsv reads any response document; move the lowest SNR of served responses around
+    # the threshold (the average stays where it is) so that the pass flag is exercised on both sides
+    _perturbed_csv(res, drv, case, eq, impl, lib, margin)
     # ---- monitor -------------------------------------------------------------------------------------------------------------
     ill = _monitor(res, case, ctx, rqs, pp, rpp, impl, rows)
     kinds = {getattr(rq, 'blocking_reason', None) or 'served' for rq in rqs}
@@ -223,6 +242,43 @@ def run(case, drv):
         res.stats['multi_slot_served'] += int(rq.N is not None and len(rq.N) > 1)
     res.stats['monitor_ill'] += int(ill)
     return res
+
+
+def _perturbed_csv(res, drv, case, eq, impl, lib, margin):
+    from gnpy.topology.request import jsontocsv
+    import random
+    rng = random.Random(batch_g.canon(case['requests'])[:200])
+    docs, thrs = [], []
+    for j in impl:
+        if 'path-properties' not in j:
+            continue
+        j2 = copy.deepcopy(j)
+        pros = [x['path-route-object'] for x in j2['path-properties']['path-route-objects']]
+        tsp = next(x['transponder'] for x in pros if 'transponder' in x)
+        mode = next(m for m in eq['Transceiver'][tsp['transponder-type']].mode if m['format'] == tsp['transponder-mode'])
+        thr = mode['OSNR'] + margin
+        d = rng.choice([-1.0, -0.01, 0.01, 0.5, -0.3])
+        for x in j2['path-properties']['path-metric']:
+            if x['metric-type'] == 'lowest_SNR-0.1nm':
+                x['accumulative-value'] = round(thr + d, 2)
+            if x['metric-type'] == 'SNR-0.1nm':
+                x['accumulative-value'] = round(thr + rng.choice([0.4, 2.0, -0.6]), 2)
+        docs.append(j2)
+        thrs.append((thr, round(thr + d, 2)))
+    if not docs:
+        return
+    out = io.StringIO()
+    jsontocsv({'response': docs}, eq, out)
+    rows = list(csv.DictReader(io.StringIO(out.getvalue())))
+    cans = drv.ask('c19.csv', lib=lib, margin=f2b(margin), responses=[batch_g.enc(j) for j in docs])
+    for i, (row, m, (thr, low)) in enumerate(zip(rows, cans, thrs)):
+        if 'error' in m:
+            res.mismatch('jsontocsv.row(perturbed)', row, m['error'], index=i)
+            continue
+        res.cmp_exact('jsontocsv.pass(perturbed)', row['Pass?'], str({k: batch_g.dec(v) for k, v in m['fields']}['Pass?']), index=i)
+        if abs(low - thr) > 1e-6 and row['Pass?'] != str(low >= thr):
+            res.fail(f'csv: pass flag {row["Pass?"]} for lowest SNR {low} dB against required OSNR incl. margin {thr} dB')
+        res.stats['csv_pass_' + row['Pass?']] += 1
 
 
 def _cmp_row(res, i, row, model):
